@@ -210,7 +210,7 @@ fn reconstruct(item: &Item) -> Item {
     }
 }
 
-fn parse_item(kind: &str, src: &str) -> Result<Item, String> {
+pub fn parse_item(kind: &str, src: &str) -> Result<Item, String> {
     match kind {
         "fact" => b::Fact::try_from(src).map(Item::Fact).map_err(|e| format!("{e:?}")),
         "rule" => b::Rule::try_from(src).map(Item::Rule).map_err(|e| format!("{e:?}")),
@@ -219,7 +219,7 @@ fn parse_item(kind: &str, src: &str) -> Result<Item, String> {
     }
 }
 
-fn expected_of(item: &Item, env: &HashMap<String, Term>, keys: &HashMap<String, PublicKey>) -> Option<Item> {
+pub fn expected_of(item: &Item, env: &HashMap<String, Term>, keys: &HashMap<String, PublicKey>) -> Option<Item> {
     Some(match item {
         Item::Fact(f) => Item::Fact(b::Fact::new(f.predicate.name.clone(), sub_pred(&f.predicate, env)?.terms)),
         Item::Rule(r) => Item::Rule(sub_rule(r, env, keys)?),
@@ -232,6 +232,14 @@ fn expected_of(item: &Item, env: &HashMap<String, Term>, keys: &HashMap<String, 
 enum Setter {
     Strict,
     Lenient,
+}
+
+pub fn set_term_strict(item: &mut Item, name: &str, v: &Term) -> Result<(), String> {
+    set_term(item, name, v, Setter::Strict)
+}
+
+pub fn set_scope_strict(item: &mut Item, name: &str, k: PublicKey) -> Result<(), String> {
+    set_scope(item, name, k, Setter::Strict)
 }
 
 fn set_term(item: &mut Item, name: &str, v: &Term, how: Setter) -> Result<(), String> {
